@@ -707,8 +707,12 @@ class Searcher(object):
         elif sortedby:
             c = collectors.SortingCollector(sortedby, limit=limit,
                                             reverse=reverse)
-        elif groupedby or reverse or not limit or limit >= self.doc_count():
-            # A collector that gathers every matching document
+        elif (groupedby or reverse or collapse_order or not limit
+              or limit >= self.doc_count()):
+            # A collector that gathers every matching document (a collapse
+            # order can remove a top document in favour of a low-scoring one
+            # of the same key, which lets in documents a top-N heap has
+            # already forgotten)
             c = collectors.UnlimitedCollector(reverse=reverse, limit=limit)
         else:
             # A collector that uses block quality optimizations and a heap
